@@ -30,6 +30,10 @@ TABLE = {
             'Compositional: Gamma(t) of the real _calc_gamma equals the pair-normalised autocorrelation sum for all fluctuations; every output of the real windowing / bias / '
             'drho / tail / S=0 code equals the paper formula on every path for all Gamma values and parameters; the FFT padding lemma holds for all integers.',
             'Real-number semantics; FFT numerics trusted (padding lemma + correlation theorem); chain length bounded (w_max <= 5, thorough 8/10); exp/log/sqrt uninterpreted with lemmas.'),
+    'C03': (True, 'symbolic execution of gamma_method on pairs of objects sharing symbolic samples (relabelled / renamed / shifted / scaled / stale-state) + SMT equality of every output per path; ast2smt shift lemma',
+            'Invariance under i->a*i+b, replica renaming/reordering, additive constants, |c|-scaling, repeatability, independence from stale state and foreign dictionary entries, '
+            'parameter precedence, non-mutation of the data and tau_int>=1/2 / non-negative errors are proven for all sample values on every path of the enumerated cases.',
+            'Real-number semantics ("finite" not expressible); scaling claimed away from the |Gamma(0)|<10*tiny underflow guard; chain length bounded; histories by one inductive step.'),
 }
 
 NOT_YET = 'check not built yet in this session (work in progress; see DESIGN.md section 4 for the plan)'
